@@ -94,3 +94,16 @@ package amm
 //@ func (order *BaseOrder) SetReceivedDemandCoinAmount
 //@   property C05
 //@   ensures #c05-setter: order.ReceivedDemandCoinAmount == amt && order.OpenAmount == old(order.OpenAmount) && order.PaidOfferCoinAmount == old(order.PaidOfferCoinAmount) && order.OfferCoinAmount == old(order.OfferCoinAmount) && order.Direction == old(order.Direction)
+
+// Depletion test (C06): the request handlers disable a pool - and refuse every further deposit and withdrawal - when it
+// reports itself depleted. A pool is depleted exactly when nothing can be redeemed from it: no shares are outstanding, or
+// (ranged pool) both reserves are empty, (basic pool) one side is empty. A pool that still holds reserves of any size for
+// its outstanding shares is never shut, so the last shares can always be redeemed for the entire remaining reserves.
+//@ func (pool *RangedPool) IsDepleted
+//@   property C06
+//@   requires pool.rx >= 0 && pool.ry >= 0 && pool.ps >= 0
+//@   ensures #c06-depleted-iff-nothing-to-redeem: result == (pool.ps == 0 || (pool.rx == 0 && pool.ry == 0))
+//@ func (pool *BasicPool) IsDepleted
+//@   property C06
+//@   requires pool.rx >= 0 && pool.ry >= 0 && pool.ps >= 0
+//@   ensures #c06-depleted-iff-a-side-is-empty: result == (pool.ps == 0 || pool.rx == 0 || pool.ry == 0)
